@@ -24,8 +24,12 @@ class F:
         self.name = name; self.ty = ty; self.naming = list(naming); self.cons = cons; self.post = list(post); self.doc = doc
 
 def inner_ty(ty):
-    m = re.match(r'^(Option|Vec)<(.*)>$', ty)
+    # the shape is read off the LAST segment of the type path: `std::option::Option<T>` is an Option, `std::primitive::bool` a bool
+    m = re.match(r'^(?:::)?(?:\w+::)*(Option|Vec)<(.*)>$', ty)
     return (m.group(1), m.group(2)) if m else (None, ty)
+
+def is_bool(ty):
+    return re.match(r'^(?:::)?(?:\w+::)*bool$', ty) is not None
 
 def attr_text(f):
     parts = []
@@ -72,7 +76,7 @@ def field_ref(f, positional_default=False):
             names = ["short('%s')" % kn] if len(kn) == 1 else ['long(%s)' % lit(kn)]
         e = '::bpaf::' + '.'.join(names + envs)
         if f.doc: e += '.help(%s)' % lit(f.doc)
-        if cons == 'switch' or (cons is None and f.ty == 'bool'):
+        if cons == 'switch' or (cons is None and is_bool(f.ty)):
             e += '.switch()'
         elif cons and cons.startswith('req_flag'):
             e += '.' + cons
@@ -314,6 +318,13 @@ def base_family():
     M.append(Member('b_docs_gap', 'struct', 'DocsGap', top=['options'], doc='Description line\n\n\nHeader line\n\n\n\n\nFooter after a long gap\n\n\nsecond footer block', fields=[F('a', 'bool')]))
     M.append(Member('b_group_fallback', 'struct', 'GroupF', top=['fallback(GroupF { width: 1, height: 2 })', 'debug_fallback'], doc='Size of the thing', fields=[F('width', 'u32'), F('height', 'u32')]))
     M.append(Member('b_usage', 'struct', 'Usage', top=['options', 'fallback_to_usage'], fields=[F('a', 'u32')]))
+    # a block of the doc comment keeps its own indentation (only trailing whitespace goes): usage lines, lists
+    M.append(Member('b_docs_indent', 'struct', 'DocsIndent', top=['options'], doc='Description\n\n\n    frob [-v] FILE...\nmore header\n\n\n  - first footer item\n  - second footer item', fields=[F('a', 'bool')]))
+    M.append(Member('b_docs_indent_cmd', 'enum', 'IndentCmd', variants=[
+        dict(name='Run', shape='named', attrs=['command'], doc='run it\n\n\n    run [--fast]\n\n\n  * footer bullet', fields=[F('fast', 'bool')])]))
+    # shapes are recognised on the last path segment
+    M.append(Member('b_qualified_types', 'struct', 'Qualified', top=['options'], fields=[
+        F('verbose', 'std::primitive::bool', doc='a switch'), F('level', 'std::option::Option<u32>'), F('names', '::std::vec::Vec<String>'), F('plain', '::core::primitive::bool')]))
     return M
 
 NAMES = ['\u0436', 'gr\u00f6\u00dfe', 'verbose', 'quiet', 'output_dir', 'n', 'x', 'dry_run', 'jobs', 'r#type', 'r#in', 'r#loop', 'max_depth', 'k', 'log_level', 'r#as', 'input_file', 'v']
